@@ -139,7 +139,13 @@ fn run(ctx: &RunCtx) -> Report {
         0 => Stored::Immutable(rng.bytes(vlen)),
         1 => Stored::Mutable {
             key_seed,
-            salt: if rng.chance(1, 2) { Some(b"salt".to_vec()) } else { None },
+            // no salt, a salt, a salt of the maximal length, or the (legal) empty salt
+            salt: match rng.below(6) {
+                0 | 1 => Some(b"salt".to_vec()),
+                2 => Some(vec![]),
+                3 => Some(rng.bytes(64)),
+                _ => None,
+            },
             seq: rng.range(0, 100) as i64,
             value: rng.bytes(vlen),
         },
